@@ -41,6 +41,9 @@ pub struct Snap {
     pub extent: Option<(Option<u128>, u128)>,
     /// ordered (key, value text) exactly as `Props::for_each` yields them
     pub props: Vec<(String, String)>,
+    /// the typed lookups `pull::<Level>("lvl")`, `pull::<Kind>("evt_kind")`, `pull::<i64>("n")`,
+    /// `pull::<bool>("flag")` on the props exactly as handed to the leaf (Display of the result)
+    pub typed: [Option<String>; 4],
 }
 
 #[derive(Debug, Clone, PartialEq)]
@@ -81,6 +84,28 @@ pub fn snap<P: Props>(evt: &Event<P>) -> Snap {
             .extent()
             .map(|e| (e.as_range().map(|r| nanos(&r.start)), nanos(e.as_point()))),
         props,
+        typed: [
+            evt.props().pull::<emit::Level, _>(key(KEY_LVL)).map(|v| v.to_string()),
+            evt.props().pull::<emit::Kind, _>(key(KEY_KIND)).map(|v| v.to_string()),
+            evt.props().pull::<i64, _>(key(KEY_N)).map(|v| v.to_string()),
+            evt.props().pull::<bool, _>(key(KEY_FLAG)).map(|v| v.to_string()),
+        ],
+    }
+}
+
+pub fn min_level_filter(min: u8, default: Option<u8>) -> emit::level::MinLevelFilter {
+    let f = emit::level::min_filter(LEVELS[min as usize % 4]);
+    match default {
+        Some(d) => f.treat_unleveled_as(LEVELS[d as usize % 4]),
+        None => f,
+    }
+}
+
+pub fn kind_filter(k: u8) -> emit::kind::KindFilter {
+    if k % 2 == 0 {
+        emit::kind::is_span_filter()
+    } else {
+        emit::kind::is_metric_filter()
     }
 }
 
@@ -105,6 +130,15 @@ pub fn eval_pred<P: Props>(pred: &Pred, evt: &Event<P>) -> bool {
         Pred::TsBefore(ts) => match evt.ts() {
             Some(t) => nanos(t) < ts.nanos(),
             None => false,
+        },
+        // the REAL typed-lookup filters, handed the event generically (no erasure added here)
+        Pred::MinLevel { min, default } => min_level_filter(*min, *default).matches(evt),
+        Pred::KindIs(k) => kind_filter(*k).matches(evt),
+        Pred::PullSome(slot) => match slot % 4 {
+            0 => evt.props().pull::<emit::Level, _>(key(KEY_LVL)).is_some(),
+            1 => evt.props().pull::<emit::Kind, _>(key(KEY_KIND)).is_some(),
+            2 => evt.props().pull::<i64, _>(key(KEY_N)).is_some(),
+            _ => evt.props().pull::<bool, _>(key(KEY_FLAG)).is_some(),
         },
     }
 }
@@ -270,6 +304,8 @@ pub enum F {
     FnPtr(FilterPtr),
     Empty(Empty),
     Always(filter::Always),
+    MinLevel(emit::level::MinLevelFilter),
+    Kind(emit::kind::KindFilter),
     And(Box<And<F, F>>),
     Or(Box<Or<F, F>>),
     Opt(Option<Box<F>>),
@@ -285,14 +321,22 @@ pub enum F {
 
 impl Filter for F {
     fn matches<E: ToEvent>(&self, evt: E) -> bool {
+        // leaves are handed the event as is: no erasure is added in front of a leaf
+        match self {
+            F::Rec(f) => return f.matches(evt),
+            F::FromFn(f) => return f.matches(evt),
+            F::FnPtr(f) => return f.matches(evt),
+            F::Empty(f) => return Filter::matches(f, evt),
+            F::Always(f) => return f.matches(evt),
+            F::MinLevel(f) => return f.matches(evt),
+            F::Kind(f) => return f.matches(evt),
+            _ => {}
+        }
+        // composites: bound the number of generic instantiations
         let evt = evt.to_event();
         let evt = evt.erase();
         match self {
-            F::Rec(f) => f.matches(&evt),
-            F::FromFn(f) => f.matches(&evt),
-            F::FnPtr(f) => f.matches(&evt),
-            F::Empty(f) => Filter::matches(f, &evt),
-            F::Always(f) => f.matches(&evt),
+            F::Rec(_) | F::FromFn(_) | F::FnPtr(_) | F::Empty(_) | F::Always(_) | F::MinLevel(_) | F::Kind(_) => unreachable!(),
             F::And(f) => f.matches(&evt),
             F::Or(f) => f.matches(&evt),
             F::Opt(f) => f.matches(&evt),
@@ -339,6 +383,8 @@ pub fn build_f(s: &FS, all_erased: bool) -> F {
         }),
         FS::Empty => F::Empty(Empty),
         FS::Always => F::Always(filter::always()),
+        FS::MinLevel { min, default } => F::MinLevel(min_level_filter(*min, *default)),
+        FS::KindIs(k) => F::Kind(kind_filter(*k)),
         FS::And(x, y) => F::And(Box::new(b(x).and_when(b(y)))),
         FS::Or(x, y) => F::Or(Box::new(b(x).or_when(b(y)))),
         FS::Opt(x) => F::Opt(x.as_ref().map(|x| Box::new(b(x)))),
@@ -440,13 +486,18 @@ pub enum E {
 
 impl Emitter for E {
     fn emit<T: ToEvent>(&self, evt: T) {
+        // leaves are handed the event as is
+        match self {
+            E::Rec(e) => return e.emit(evt),
+            E::FromFn(e) => return e.emit(evt),
+            E::FnPtr(e) => return e.emit(evt),
+            E::Empty(e) => return Emitter::emit(e, evt),
+            _ => {}
+        }
         let evt = evt.to_event();
         let evt = evt.erase();
         match self {
-            E::Rec(e) => e.emit(&evt),
-            E::FromFn(e) => e.emit(&evt),
-            E::FnPtr(e) => e.emit(&evt),
-            E::Empty(e) => Emitter::emit(e, &evt),
+            E::Rec(_) | E::FromFn(_) | E::FnPtr(_) | E::Empty(_) => unreachable!(),
             E::And(e) => e.emit(&evt),
             E::Opt(e) => e.emit(&evt),
             E::Boxed(e) => e.emit(&evt),
@@ -555,5 +606,102 @@ pub fn build_e(s: &ES, all_erased: bool, nested_clock_tag: &mut u32) -> E {
         E::Erased(Box::new(e))
     } else {
         e
+    }
+}
+
+// ---------------------------------------------------------------------------------------------
+// roots: the top node of a tree is NOT preceded by an erasure, so a root leaf, the operands of a root
+// `And`/`Or`, the filter of a root `Wrap(from_filter)` and the filter/emitter of a root nested runtime
+// are handed the props generically — `And<own, ambient>` exactly as `emit_core::emit` builds them.
+// (Non-recursive, so no instantiation blow-up.)
+
+pub enum FH {
+    Plain(F),
+    And(And<F, F>),
+    Or(Or<F, F>),
+}
+
+impl Filter for FH {
+    fn matches<E: ToEvent>(&self, evt: E) -> bool {
+        match self {
+            FH::Plain(f) => f.matches(evt),
+            FH::And(f) => f.matches(evt),
+            FH::Or(f) => f.matches(evt),
+        }
+    }
+}
+
+pub fn build_fh(s: &FS, all_erased: bool) -> FH {
+    if all_erased {
+        return FH::Plain(build_f(s, true));
+    }
+    match s {
+        FS::And(x, y) => FH::And(build_f(x, false).and_when(build_f(y, false))),
+        FS::Or(x, y) => FH::Or(build_f(x, false).or_when(build_f(y, false))),
+        s => FH::Plain(build_f(s, false)),
+    }
+}
+
+pub enum EH {
+    Plain(E),
+    And(And<E, E>),
+    WrapFilter(Wrap<E, wrapping::FromFilter<F>>),
+    Rt(NestedRt),
+}
+
+impl Emitter for EH {
+    fn emit<T: ToEvent>(&self, evt: T) {
+        match self {
+            EH::Plain(e) => e.emit(evt),
+            EH::And(e) => e.emit(evt),
+            EH::WrapFilter(e) => e.emit(evt),
+            EH::Rt(e) => Emitter::emit(e, evt),
+        }
+    }
+
+    fn blocking_flush(&self, timeout: Duration) -> bool {
+        match self {
+            EH::Plain(e) => e.blocking_flush(timeout),
+            EH::And(e) => e.blocking_flush(timeout),
+            EH::WrapFilter(e) => e.blocking_flush(timeout),
+            EH::Rt(e) => Emitter::blocking_flush(e, timeout),
+        }
+    }
+}
+
+pub fn build_eh(s: &ES, all_erased: bool, nested_clock_tag: &mut u32) -> EH {
+    if all_erased {
+        return EH::Plain(build_e(s, true, nested_clock_tag));
+    }
+    match s {
+        ES::And(x, y) => {
+            let x = build_e(x, false, nested_clock_tag);
+            let y = build_e(y, false, nested_clock_tag);
+            EH::And(x.and_to(y))
+        }
+        ES::Wrap(x, WS::Filter(f)) => {
+            let f = build_f(f, false);
+            let x = build_e(x, false, nested_clock_tag);
+            EH::WrapFilter(x.wrap_emitter(wrapping::from_filter(f)))
+        }
+        ES::Rt {
+            emitter,
+            filter,
+            ctxt,
+            clock,
+        } => {
+            *nested_clock_tag += 1;
+            let tag = *nested_clock_tag;
+            let f = build_f(filter, false);
+            let e = build_e(emitter, false, nested_clock_tag);
+            EH::Rt(
+                Runtime::new()
+                    .with_emitter(e)
+                    .with_filter(f)
+                    .with_ctxt(ListCtxt::new(ctxt))
+                    .with_clock(K::new(tag, *clock)),
+            )
+        }
+        s => EH::Plain(build_e(s, false, nested_clock_tag)),
     }
 }
